@@ -4,6 +4,7 @@ import re
 
 from lib import common as C
 from lib import corr
+from lib import execcorr
 from lib import infergen
 from lib import tygen as G
 from lib.flow import Failure
@@ -13,24 +14,31 @@ MANIFEST = {
             "literal key has the type stored last under that key, for every hash built by a literal and by h[k] = v in any "
             "order and for every stored type (NilClass included); the union of scalar types (array elements, ternaries, "
             "growth) has one variant per distinct class in order of first occurrence, through the model of "
-            "T.AppendVariant. The reading `a stored nil is a missing key` is refuted. Tie: T.AppendVariant, "
+            "T.AppendVariant. The reading `a stored nil is a missing key` is refuted. The resolution of declared return types "
+            "is proved on a model of calculateExecutionType: Self is the receiver, Unify the union of its element types, "
+            "OptionalUnify the same with NilClass, Argument nil / the argument / the array of the arguments, SelfArray and "
+            "KeyValueArray arrays of the receiver's element / value types, a union return every variant resolved and unified "
+            "(C09_return_*). Tie: calculateExecutionType is called through a hook on generated receivers, return types "
+            "(special types, unions and arrays of them, plain types, `new`), arguments and block values, and both the resolved "
+            "type and the receiver afterwards are compared with the model (the receiver must be untouched); T.AppendVariant, "
             "T.UnifyVariants, base.TypeToString and HashReference over AppendHashVariant are executed through the harness on "
             "generated types and compared with the model by vm_compute; end to end, generated straight-line programs "
             "(literals, flat and nested array literals with and without spaces, hash literals, lookups, h[k] = v, "
-            "reassignment, push / <<, first, builtin calls) are compared with the reference rules at every dbtp.",
+            "reassignment, push / <<, first, builtin calls, hashes of arrays before and after operations that unify their "
+            "values) are compared with the reference rules at every dbtp.",
     "note": "Trusted: Coq kernel + vm_compute; lib/infergen.py (the reference rules as the property states them). Literals and "
             "variables are definitional in the reference model; declared return types are exercised for a handful of "
             "methods of the shipped configuration.",
-    "technique": "Coq proof (hash lookup over AppendHashVariant; union of scalars through AppendVariant); correspondence by "
+    "technique": "Coq proof (hash lookup over AppendHashVariant; union of scalars through AppendVariant; resolution of special return types); correspondence by "
                  "vm_compute through the harness; end-to-end comparison with the reference rules",
 }
-REQUIRES = ["Model/Infer.v", "Model/TyOps.v"]
+REQUIRES = ["Model/Infer.v", "Model/TyOps.v", "Model/ExecType.v"]
 RULE = ("hooks: types of depth <= 2 from 19 scalar shapes, arrays, hashes, unions; hashes of 0-5 pairs over 5 keys with repeated "
         "keys and nil values; end to end: 12-step programs; non-trivial = a nested literal, a repeated key or a growth step")
 TRUSTED = []
 ASSUMPTIONS = []
-PARTIAL = ["Self / Unify / Argument / SelfArray / KeyValueArray returns: exercised through the configured methods the programs "
-           "call, not proved", "nested hashes and arrays of hashes: exploration only"]
+PARTIAL = ["OWNER returns and return types written as a namespace path are not modelled; conditional returns "
+           "(conditioningMethodReturn) are exercised end to end only", "nested hashes and arrays of hashes: exploration only"]
 
 
 def part_tyops_corr(ctx, part):
@@ -105,7 +113,11 @@ def part_e2e(ctx, part):
         for row, want, note in exp:
             part.evaluations += 1
             part.count(note)
-            if got.get(row) == want:
+            ok = got.get(row) == want
+            if not ok and "as a set" in note:          # Array<Array<...>>: the inner element types in any order
+                m1, m2 = re.match(r'^Array<Array<(.*)>>$', got.get(row) or ""), re.match(r'^Array<Array<(.*)>>$', want)
+                ok = bool(m1 and m2 and sorted(m1.group(1).split(" ")) == sorted(m2.group(1).split(" ")))
+            if ok:
                 part.agreed += 1
             else:
                 part.failures.append(Failure("wrong_type", "row %d (%s): the reference rules give %s, ti reports %s" % (row, note, want, got.get(row)),
@@ -113,7 +125,7 @@ def part_e2e(ctx, part):
         part.sample({"lines": len(src.split("\n")), "probes": len(exp)})
 
 
-PARTS = [part_tyops_corr, part_hash_corr, part_e2e]
+PARTS = [part_tyops_corr, part_hash_corr, execcorr.part_exec_type, part_e2e]
 
 
 def replay(path):
